@@ -211,6 +211,20 @@ Definition cut_dev (c : k3case) (s a : Q) : Q :=
   let rnd := (3 # 1048576) * polyline_hi 30 (e_in c) in
   let lo := len_lo 30 8 pre - rnd in let hi := len_hi 30 8 pre + rnd in
   if Qle_bool a lo then lo - a else if Qle_bool hi a then a - hi else 0.
+(** The cuts are accurate to [tol] only, so a drawn stretch that ends within [tol] of the start of the path, or starts within
+    [tol] of its end, may come out empty (Dash's own remark: "SplitAt measures the segments in its own way and ignores the last
+    positions when it comes out shorter than Length").  [alignments] lists the prescribed stretches with such a first and/or
+    last stretch left out, whenever that gives the [n] stretches that were returned; no other stretch may be missing. *)
+Definition alignments (tol L : Q) (spec : list (Q * Q)) (n : nat) : list (list (Q * Q)) :=
+  let first_small := match spec with (_, b) :: _ => Qle_bool b tol | [] => false end in
+  let last_small := match rev spec with (a, _) :: _ => Qle_bool (L - tol) a | [] => false end in
+  (if (length spec =? n)%nat then [spec] else []) ++
+  (if (length spec =? S n)%nat && first_small then [tl spec] else []) ++
+  (if (length spec =? S n)%nat && last_small then [removelast spec] else []) ++
+  (if (length spec =? S (S n))%nat && first_small && last_small then [removelast (tl spec)] else []).
+Definition qmax_list (l : list Q) : Q := fold_right (fun d m => if Qle_bool m d then d else m) 0 l.
+Definition qmin_list (d : Q) (l : list Q) : Q := fold_right (fun x m => if Qle_bool x m then x else m) d l.
+
 Definition judge_k3 (c : k3case) : list Z :=
   if e_panic c then [32%Z; 0%Z; 0%Z] else
   let L := e_len c in
@@ -218,9 +232,11 @@ Definition judge_k3 (c : k3case) : list Z :=
   let tol := e_slack c + L * (1 # 100) in
   let cert := forallb (fun x => let '(ctrl, s, u) := x in sub_ok (e_slack c) (e_in c) ctrl s u) (e_pieces c) in
   let ord := ordered 0 (e_pieces c) in
-  let cnt := (length spec =? length (e_pieces c))%nat in
-  let devs := flat_map (fun xy => let '((_, s, u), (a, b)) := xy in [cut_dev c s a; cut_dev c u b]) (combine (e_pieces c) spec) in
-  let worst := fold_right (fun d m => if Qle_bool m d then d else m) 0 devs in
+  let als := alignments tol L spec (length (e_pieces c)) in
+  let cnt := match als with [] => false | _ => true end in
+  let worst_of sp := qmax_list (flat_map (fun xy => let '((_, s, u), (a, b)) := xy in [cut_dev c s a; cut_dev c u b])
+                                         (combine (e_pieces c) sp)) in
+  let worst := match als with [] => 0 | sp :: r => qmin_list (worst_of sp) (map worst_of r) end in
   let cuts := Qle_bool worst tol in
   [ (bit (negb cert) 1 + bit (negb ord) 2 + bit (negb cnt) 4 + bit (cnt && cert && negb cuts) 8)%Z;
     Z.of_nat (length (e_pieces c));
@@ -235,11 +251,19 @@ Definition judge_k3 (c : k3case) : list Z :=
 From CV Require Import Geom.Matrix Geom.MatrixProofs Geom.Ellipse Corr.C09.
 Record k4case := mkK4 { f_arc : acase; f_off : Q; f_d : list Q }.
 
+(** w lies in the span from u to v up to an angle of about [sl] at either end (Go recomputes the start point of the first dash
+    from its angle, which lands some 1e-14 before the start of a large arc) *)
+Definition span_ccwb_sl (sl : Q) (u v w : qpt) : bool :=
+  if Qle_bool 0 (qcross u v) then Qle_bool (- sl) (qcross u w) && Qle_bool (- sl) (qcross w v)
+  else Qle_bool (- sl) (qcross u w) || Qle_bool (- sl) (qcross w v).
+Definition in_spanb_sl (sl : Q) (sweep : bool) (u v w : qpt) : bool :=
+  if sweep then span_ccwb_sl sl u v w else span_ccwb_sl sl v u w.
 Fixpoint dashes_advance (c : acase) (prev : qpt) (ps : list apiece) : bool :=
+  let sl := 1 # 1073741824 in
   match ps with
   | [] => true
-  | p :: r => in_spanb (aSweep c) (circ c prev) (circ c (aE c)) (circ c (ap_s p)) &&
-              in_spanb (aSweep c) (circ c (ap_s p)) (circ c (aE c)) (circ c (ap_e p)) && dashes_advance c (ap_e p) r
+  | p :: r => in_spanb_sl sl (aSweep c) (circ c prev) (circ c (aE c)) (circ c (ap_s p)) &&
+              in_spanb_sl sl (aSweep c) (circ c (ap_s p)) (circ c (aE c)) (circ c (ap_e p)) && dashes_advance c (ap_e p) r
   end.
 
 (** flags: 1 tie (generated arc inconsistent), 2 PROP a dash is not an arc of the same ellipse in the same direction or its
@@ -260,9 +284,10 @@ Definition judge_k4 (k : k4case) : list Z :=
                                 on_unit sl (circ c (ap_s p)) && on_unit sl (circ c (ap_e p))) ps in
   let order := dashes_advance c (aS c) ps in
   let larges := forallb (large_ok c) ps in
-  let cnt := (length ps =? length spec)%nat in
-  let devs := map (fun xy => let '(p, (a, b)) := xy in Qabs (ap_len p - (b - a))) (combine ps spec) in
-  let worst := fold_right (fun d m => if Qle_bool m d then d else m) 0 devs in
+  let als := alignments (L * (1 # 100) + (1 # 1000000)) L spec (length ps) in
+  let cnt := match als with [] => false | _ => true end in
+  let worst_of sp := qmax_list (map (fun xy => let '(p, (a, b)) := xy in Qabs (ap_len p - (b - a))) (combine ps sp)) in
+  let worst := match als with [] => 0 | sp :: r => qmin_list (worst_of sp) (map worst_of r) end in
   let lens := Qle_bool worst (L * (2 # 100) + (1 # 1000000)) in
   [ (bit (negb gen_ok) 1 + bit (negb same) 2 + bit (same && negb order) 4 + bit (cnt && negb lens) 8 + bit (same && negb larges) 16 +
      bit (negb cnt) 32)%Z; Z.of_nat (length ps); (if Qle_bool L 0 then 0 else Qfloor (worst * 1000 / L))%Z ].
